@@ -592,6 +592,27 @@ func (e *Engine) externalCall(fr *frame, st *State, c *ast.CallExpr, fn *types.F
 		for i := 0; i < sig.Results().Len(); i++ {
 			rets = append(rets, e.freshOf(e.typeOf(sig.Results().At(i).Type()), "ext"))
 		}
+		// the first two results of the i-th call are nameable in contracts as cres("<log name>", i) and cres2("<log name>", i)
+		pos := e.xlog(st, name)
+		at := sx.App("-", (&pos).LenT(), sx.Int(1))
+		for i := 0; i < len(rets) && i < 2; i++ {
+			if rets[i].T == nil {
+				continue
+			}
+			fnName := []string{"cres_", "cres2_"}[i] + strings.NewReplacer(".", "_", "-", "_").Replace(name)
+			e.extraFn["cres:"+fnName] = fmt.Sprintf("(declare-fun %s (Int) Any)", fnName)
+			boxed := e.box(rets[i], spec.Type{K: spec.KAny})
+			st.facts = append(st.facts, sx.App("=", sx.App(fnName, at), boxed))
+			switch rets[i].Ty.K {
+			case spec.KBool:
+				st.facts = append(st.facts, sx.App("=", e.uf("unbox_Bool", spec.Type{K: spec.KBool}, Val{TV: spec.TV{T: boxed, Ty: spec.Type{K: spec.KAny}}}).T, rets[i].T))
+			case spec.KInt:
+				st.facts = append(st.facts, sx.App("=", e.uf("unbox_Int", spec.Type{K: spec.KInt}, Val{TV: spec.TV{T: boxed, Ty: spec.Type{K: spec.KAny}}}).T, rets[i].T))
+			case spec.KStruct:
+				spec.DeclareNilPtr(rets[i].Ty.Name)
+				st.facts = append(st.facts, sx.App("=", sx.App("=", boxed, sx.Atom("AnyNull")), sx.App("isnilp_"+rets[i].Ty.Name, rets[i].T)))
+			}
+		}
 		k(st, rets)
 	})
 }
@@ -767,6 +788,19 @@ func (e *Engine) inlineWB(caller *frame, st *State, fn *types.Func, decl *ast.Fu
 	st.vars = map[types.Object]Val{}
 	_, objs := paramNames(decl, nf.info)
 	for i, o := range objs {
+		if i >= len(args) {
+			// a variadic parameter that received no arguments is a nil slice
+			func() {
+				defer func() { recover() }()
+				pt := e.typeOf(o.Type())
+				if pt.K != spec.KUnit {
+					st.vars[o] = Val{TV: spec.TV{T: e.zero(pt), Ty: pt}}
+				} else {
+					st.vars[o] = unit()
+				}
+			}()
+			continue
+		}
 		a := args[i]
 		if a.T != nil && sx.Eq(a.T, spec.NilNB) { // untyped nil argument: take the parameter's type
 			if pt := e.typeOf(o.Type()); pt.K != spec.KNB && pt.K != spec.KUnit {
